@@ -136,7 +136,7 @@ def c_quat(c):
     c.observe('d', d)
 
 
-@contract('C18', 'quaternion-metric.symmetric', variants=[dict(f=f, what=w) for f in QUAT for w in ('swap', 'negate')], feas_timeout_ms=1000, budget_s=200, optional=True,
+@contract('C18', 'quaternion-metric.symmetric', variants=[dict(f=f, what=w) for f in QUAT for w in ('swap', 'negate')], feas_timeout_ms=1000, budget_s=1500, optional=True, thorough_only=True,
           functions=['metrics.qdist', 'metrics.qeip', 'metrics.qcip', 'metrics.qad'])
 def c_quat_sym(c):
     m = c.ahrs.utils.metrics
@@ -156,7 +156,7 @@ def c_quat_sym(c):
         c.goal('same', eq(d, d2))
 
 
-@contract('C18', 'quaternion-metric.bi-invariant', variants=[dict(f=f, side=s) for f in QUAT for s in ('left', 'right')], feas_timeout_ms=1000, budget_s=200, optional=True,
+@contract('C18', 'quaternion-metric.bi-invariant', variants=[dict(f=f, side=s) for f in QUAT for s in ('left', 'right')], feas_timeout_ms=1000, budget_s=1500, optional=True, thorough_only=True,
           functions=['metrics.qdist', 'metrics.qeip', 'metrics.qcip', 'metrics.qad'])
 def c_quat_inv(c):
     m = c.ahrs.utils.metrics
@@ -180,6 +180,21 @@ def c_quat_inv(c):
         c.goal('invariant', eq(c.cos(d), c.cos(d2)))
     else:
         c.goal('invariant', eq(d, d2))
+
+
+@contract('C18', 'quaternion-metric.invariance-of-|p.q|', functions=[])
+def c_dot_inv(c):
+    """ghost lemmas: the quaternion metrics are proved (unit quaternion-metric) to be functions of |p.q| alone, and |p.q| is
+    symmetric, unchanged under q -> -q and under left/right multiplication of both arguments by a unit quaternion --
+    which gives symmetry, sign- and bi-invariance of qdist, qeip, qcip, qad for all inputs"""
+    p, q, a = c.unit_quat('p'), c.unit_quat('q'), c.unit_quat('a')
+    cd = dot(p, q)
+    c.goal('symmetric', eq(dot(q, p), cd))
+    c.goal('negation', eq(dot(p, -q) * dot(p, -q), cd * cd))
+    c.goal('left', eq(dot(qmul(a, p), qmul(a, q)), cd))
+    c.goal('right', eq(dot(qmul(p, a), qmul(q, a)), cd))
+    c.goal('left.unit', And(eq(dot(qmul(a, p), qmul(a, p)), 1), eq(dot(qmul(a, q), qmul(a, q)), 1)))
+    c.goal('right.unit', And(eq(dot(qmul(p, a), qmul(p, a)), 1), eq(dot(qmul(q, a), qmul(q, a)), 1)))
 
 
 @contract('C18', 'zero-set', variants=[dict(f=f) for f in MAT + QUAT], budget_s=120,
